@@ -20,7 +20,10 @@ INVARIANT C37_Values
 INVARIANT C37_Persistent
 INVARIANT C37_NoArchiveBeforeClose
 INVARIANT C37_Approx
+INVARIANT C37_DeepcopyFaithful
+INVARIANT C37_NoCopyBeforeDeepcopy
 INVARIANT C36_Meta
 PROPERTY C39_NoWrite
 PROPERTY C39_Refused
+CONSTRAINT BoundCopy
 CHECK_DEADLOCK FALSE
